@@ -48,6 +48,9 @@ CHECKS = {
  "C17": ("exploration", "E5-HEAP", "exhaustive enumeration of (reachable state, operation cycle) pairs of small closures; per pair a live-heap measurement after forced collections against a fixed threshold",
          "The set of (state, cycle) pairs is exhaustive for the listed universes; the verdict per pair is a measurement (HeapAlloc after two forced GCs) with thresholds two orders of magnitude from both behaviours; violations are re-measured before being reported.",
          "Every operation cycle (queries, overwrites, absent deletes, delete/insert churn incl. grow/shrink thresholds) of every reachable state is pumped 4*10^4 times and the live heap must not grow; 200 trees per state are churned and emptied and must retain only a small constant."),
+ "C18": ("model_checking", "E1-HIST", E1_TECH + "; the garbage collector is an enumerated environment event",
+         "Collections at operation boundaries only (every position; thorough: every subset of positions for histories <= 8 operations); GODEBUG=clobberfree=1, GC percent 1, checkptr-instrumented build; collections inside operations are not explored by this check.",
+         "Closures for every tree kind x 7 value types with keys/values as fresh heap objects referenced only by the tree and a forced collection after every operation; deep equality of every stored key and value with the reference in every reachable state; checkptr faults and runtime fatal errors are violations."),
  "C19": ("translation_validation", "E6-GEN", "complete enumeration of the five template instantiations, byte comparison with the repository generator's formatted output",
          "text/template and gofmt of the pinned toolchain are trusted.",
          "Runs the repository's own generator on the working tree's template (both initial states of the output file) and compares each of the five instantiations byte-for-byte."),
@@ -55,7 +58,6 @@ CHECKS = {
 
 PENDING = {
  "C16": "check under construction in this session (statement-level schedule exploration, DESIGN.md §5/C16); not yet claimed",
- "C18": "check under construction in this session (GC as explored environment event, DESIGN.md §5/C18); not yet claimed",
 }
 
 def main():
